@@ -198,11 +198,12 @@ func verifClientScenario(byID bool, k, faults, ackQueue int, maxDuration time.Du
 	defer func(v int) { defs.ForwarderMaxPendingChunksForAck = v }(defs.ForwarderMaxPendingChunksForAck)
 	defs.ForwarderMaxPendingChunksForAck = ackQueue
 	mon := &verifMonitor{byID: byID, faultsLeft: faults, ackedOK: map[string]bool{}, progress: make(chan struct{}, 64)}
+	metrics := fakes.NewMetrics()
 	in := make(chan base.LogChunk, k)
 	closed := channels.NewSignalAwaitable()
 	w := NewClientWorker(logger.Root(), base.ChunkConsumerArgs{InputChannel: in, InputClosed: closed,
 		OnChunkConsumed: mon.onConsumed, OnChunkLeftover: mon.onLeftover, OnFinished: mon.onFinished},
-		fakes.NewMetrics(), mon.dial, maxDuration)
+		metrics, mon.dial, maxDuration)
 	w.Start()
 	for i := 0; i < k; i++ {
 		in <- base.LogChunk{ID: verifChunkIDs[i], Data: []byte{byte(i), 1, 2}}
@@ -252,6 +253,19 @@ func verifClientScenario(byID bool, k, faults, ackQueue int, maxDuration time.Du
 	for i := 1; i < len(mon.leftover); i++ {
 		sym.Assert(mon.leftover[i-1] < mon.leftover[i], "chunks are handed back in creation order")
 	}
+	// ---- C19: client counters match what the scripted upstream saw ----
+	sentOK, acked := 0, 0
+	for _, c := range mon.conns {
+		sentOK += len(c.sentOK)
+	}
+	for range mon.ackedOK {
+		acked++
+	}
+	_ = acked
+	sym.Assert(int(metrics.CounterValue("acknowledged_chunks_total")) == len(mon.consumed), "acknowledged count = chunks reported delivered")
+	sym.Assert(int(metrics.CounterValue("forwarded_chunks_total")) <= sentOK, "forwarded count never exceeds what the upstream received completely")
+	sym.Assert(metrics.GaugeVecValue("queued_chunks", "pendingAck") == 0, "no chunk is counted as pending ACK after the client has stopped")
+	sym.Assert(metrics.GaugeVecValue("queued_chunks", "leftover") == 0, "the leftover gauge is back to zero after the hand-back")
 	if len(mon.leftover) > 0 {
 		sym.Reach("handed-back")
 	}
@@ -291,3 +305,57 @@ func VerifC02_SessionById() {
 func VerifC02_SessionPositional() {
 	verifClientScenario(false, 2+sym.Tier(), 2, 1, 0)
 }
+
+// VerifC05_TransmissionOrder: the client scenario read as the ordering
+// guarantee: on every connection chunks go out in creation order (leftovers
+// before new chunks), and hand-backs are in creation order.
+//
+//verif:preempt 0
+//verif:timers 30
+//verif:clock virtual
+//verif:native off
+//verif:delays 2
+//verif:thorough delays 3
+//verif:reach stopped delivered handed-back reconnected
+//verif:paths 400000
+func VerifC05_TransmissionOrder() { verifClientScenario(true, 2+sym.Tier(), 2, 1, 0) }
+
+// VerifC18_ClientStops: the client scenario read as bounded shutdown: after the
+// stop request the worker terminates (no deadlock) within the deadline of one
+// hung operation, for every scripted upstream state.
+//
+//verif:preempt 0
+//verif:timers 30
+//verif:clock virtual
+//verif:native off
+//verif:delays 2
+//verif:thorough delays 3
+//verif:reach stopped delivered handed-back reconnected
+//verif:paths 400000
+func VerifC18_ClientStops() { verifClientScenario(true, 2+sym.Tier(), 2, 1, 0) }
+
+// VerifC01_ClientCustody: link L5 of the custody chain (a chunk taken from the
+// buffer is delivered after its ACK or handed back).
+//
+//verif:preempt 0
+//verif:timers 30
+//verif:clock virtual
+//verif:native off
+//verif:delays 2
+//verif:thorough delays 3
+//verif:reach stopped delivered handed-back reconnected
+//verif:paths 400000
+func VerifC01_ClientCustody() { verifClientScenario(true, 2+sym.Tier(), 2, 1, 0) }
+
+// VerifC19_ClientCounters: the client scenario read as the output balance:
+// acknowledged = delivered, forwarded <= received upstream, gauges back to zero.
+//
+//verif:preempt 0
+//verif:timers 30
+//verif:clock virtual
+//verif:native off
+//verif:delays 2
+//verif:thorough delays 3
+//verif:reach stopped delivered handed-back reconnected
+//verif:paths 400000
+func VerifC19_ClientCounters() { verifClientScenario(true, 2+sym.Tier(), 2, 1, 0) }
